@@ -48,6 +48,10 @@ FIXED = [
     ('D29', 'C12', "'std :: pair<A,B>'", "with a blank or comment between std and :: a pair return was parsed as a templated type named std::pair"),
     ('D25', 'C10', 'nested namespaces go to', "class-scoped enum of a::b::C was written to +ab/+C/E.m instead of +a/+b/+C/E.m"),
     ('D17', 'C17', 'C++ (not Python) string escapes', "docstrings with non-printable characters were escaped with Python repr rules (\\xa0 decodes to one byte; \\x7fa1 is ill-formed C++)"),
+    ('D18', 'C14', 'docstring overload bookkeeping is reset', "a PybindWrapper reused for a second file with XML docs and equal-named overloads raised IndexError (XMLDocParser._memory survived between wrap_file calls)"),
+    ('D24', 'C14', 'reads and writes files as UTF-8', "MATLAB generation of an input with a non-ASCII character failed with UnicodeDecodeError when the locale encoding is ASCII (files opened with the locale encoding)"),
+    ('D27', 'C17', 'tolerates parameters without description', "a Doxygen member with an empty <parameterdescription> or an omitted optional parameter with only <defname> raised AttributeError instead of giving a docstring"),
+    ('D39', 'C02', 'dunder method arguments of templated classes', "arguments of dunder methods of a templated class were not instantiated (__contains__(T key) kept T)"),
 ]
 
 # open findings: key, property, probe handler, what (printed in the KNOWN-FINDING line), mechanism, witness builder
@@ -72,8 +76,6 @@ finding('D3', 'C02', 'inst-text', '`This` inside template arguments (std::vector
 finding('D38', 'C02', 'inst-text', '`This` inside a templated base class is replaced by the namespace instead of the class',
         'instantiate_parent_class passes Typename(namespaces) as cpp_typename',
         inst('namespace n { template<T = {double}> class A : n::B<n::This::Sub, T> { void g(); }; }'))
-finding('D39', 'C02', 'inst-text', 'arguments of dunder methods of a templated class are not instantiated',
-        'InstantiatedClass copies original.dunder_methods unchanged', inst('template<T = {double}> class A { __contains__(T key); };'))
 finding('D45', 'C02', 'inst-text', 'scoped use T::X inside template arguments is not substituted',
         'is_scoped_template only inspects the top-level spelling', inst('template<T = {ns::P}> class A { void f(std::vector<T::Value> v); };'))
 finding('D46', 'C02', 'inst-text', 'scoped use T::X with a templated concrete type puts the template arguments after the member (Foo::X<int>)',
@@ -107,11 +109,6 @@ finding('D44', 'C09', 'compile-text', 'two classes of the same name in different
         {'interface': 'class W { enum K { a }; }; namespace n { class W { enum K { a }; }; }',
          'lib': 'struct W { enum K { a }; long vt_origin; static std::string vt_name(); }; namespace n { struct W { enum K { a }; long vt_origin; static std::string vt_name(); }; }'})
 # ---- C17
-finding('D27', 'C17', 'doc-xml', 'a Doxygen member with an empty <parameterdescription> raises AttributeError instead of giving a (partial) docstring',
-        "parameter_item.find('.//parameterdescription/para').text on None",
-        {'interface': 'class A { void f(int x); };',
-         'files': {'index.xml': '<?xml version="1.0"?><doxygenindex><compound refid="classA" kind="class"><name>A</name></compound></doxygenindex>',
-                   'classA.xml': '<?xml version="1.0"?><doxygen><compounddef id="classA" kind="class"><sectiondef kind="public-func"><memberdef kind="function" id="a1"><name>f</name><argsstring>(int x)</argsstring><param><declname>x</declname></param><briefdescription><para>doc</para></briefdescription><detaileddescription><para><parameterlist kind="param"><parameteritem><parameternamelist><parametername>x</parametername></parameternamelist><parameterdescription/></parameteritem></parameterlist></para></detaileddescription></memberdef></sectiondef></compounddef></doxygen>'}})
 # ---- C06
 M = 'matlab-marshal'
 finding('D9', 'C06', M, 'a `const string&` parameter is unwrapped as an object handle', 'is_ref() treats string like a class',
@@ -138,10 +135,6 @@ finding('D41', 'C06', M, "parameters of type unsigned char are guarded with isa(
 finding('D20', 'C10', 'toolbox-serialize-name', 'serialization of a global-scope class emits `.Name.string_deserialize`',
         "class_name = namespace_name + '.' + name with an empty namespace", {'text': 'class G { G(); void serialize(); };'})
 # ---- C14
-finding('D18', 'C14', 'reuse-xml', 'a PybindWrapper reused for a second file with XML docs and equal-named overloads raises IndexError',
-        'XMLDocParser._memory survives between wrap_file calls', {})
-finding('D24', 'C14', 'locale-ascii', 'MATLAB generation of an input with a non-ASCII byte fails when the locale encoding is forced to ASCII',
-        'files are opened with the locale encoding (pybind passes UTF-8 explicitly)', {})
 # ---- C04
 finding('D40', 'C04', 'import-module', 'a default value of the class\'s own enum type makes the module fail at import (enum registered after the class)',
         'class-scoped enums are emitted after the class statement', {'interface': 'class A { enum K { a, b }; A(A::K k = A::K::a); };'})
